@@ -187,6 +187,12 @@ class Ctx:
 
     # ------------------------------------------------------------------ stage 1: regen
     def regen(self, names):
+        """stage 1: re-translate Gen/*.v from the current source (all generators; see _regen_nolock)"""
+        self._own_gens = list(dict.fromkeys(list(getattr(self, "_own_gens", [])) + list(names)))
+        with Lock():
+            return self._regen_nolock(list(names), report=True)
+
+    def _regen_nolock(self, names, report):
         from translate import GENERATORS
         ok = True
         own = list(names)
@@ -195,27 +201,28 @@ class Ctx:
         # A translator outside `names` that fails leaves a stub, so only checks whose build depends on it
         # break (as broken-proof at the import), the others are unaffected.
         others = [n for n in sorted(GENERATORS) if n not in own] if os.environ.get("VERIF_REGEN_ALL", "1") == "1" else []
-        with Lock():
-            for name in own + others:
-                path = os.path.join(COQ, "Gen", name + ".v")
-                try:
-                    text = GENERATORS[name](REPO)
-                    write_if_changed(path, text)
-                    if name in own:
-                        self.log(f"regen {name}: ok")
-                except Exception as e:   # fail closed
-                    # make dependants fail to build rather than reuse a stale model
-                    write_if_changed(path, "(* translator failed on this run *)\n"
-                                     "Definition translator_failed : True := I.\n")
-                    if name in own:
-                        ok = False
-                        self.broken.append({"kind": "broken-translator", "name": name,
-                                            "detail": f"{type(e).__name__}: {e}"})
-                        self.log(f"regen {name}: FAILED {type(e).__name__}: {e}")
-                    else:
-                        self.notes.append(f"translator {name} (not owned by this check) failed: "
-                                          f"{type(e).__name__}: {str(e)[:200]}")
-                        self.log(f"regen {name} (dependency of other checks): FAILED {type(e).__name__}")
+        for name in own + others:
+            path = os.path.join(COQ, "Gen", name + ".v")
+            try:
+                text = GENERATORS[name](REPO)
+                write_if_changed(path, text)
+                if name in own and report:
+                    self.log(f"regen {name}: ok")
+            except Exception as e:   # fail closed
+                # make dependants fail to build rather than reuse a stale model
+                write_if_changed(path, "(* translator failed on this run *)\n"
+                                 "Definition translator_failed : True := I.\n")
+                if not report:
+                    continue
+                if name in own:
+                    ok = False
+                    self.broken.append({"kind": "broken-translator", "name": name,
+                                        "detail": f"{type(e).__name__}: {e}"})
+                    self.log(f"regen {name}: FAILED {type(e).__name__}: {e}")
+                else:
+                    self.notes.append(f"translator {name} (not owned by this check) failed: "
+                                      f"{type(e).__name__}: {str(e)[:200]}")
+                    self.log(f"regen {name} (dependency of other checks): FAILED {type(e).__name__}")
         return ok
 
     # ------------------------------------------------------------------ stage 2: build
@@ -228,6 +235,9 @@ class Ctx:
         self.theorems += thms
         self.obligations += len(thms)
         with Lock():
+            # regen and build under ONE lock: the Gen files are shared by all runs (also runs against a scratch
+            # copy via VERIF_REPO), so they are re-translated from THIS run's tree right before make
+            self._regen_nolock(list(getattr(self, "_own_gens", [])), report=False)
             ensure_makefile()
             try:
                 os.remove(os.path.join(COQ, vo))
